@@ -108,12 +108,14 @@ def exEdges : List Rat := [0, 1, 2, 3, 4]
 
 example : 2 ≤ exHist.length ∧ exEdges.length = exHist.length + 1 ∧ exEdges.Pairwise (· < ·) := by
   decide +kernel
-example : critList exHist (centres exEdges) = [50/3, 50/3, 27/2] ∧ otsuHist exHist exEdges = 1/2 := by
+example : critList exHist (centres exEdges) = [121/2, 121/2, 49] ∧ otsuHist exHist exEdges = 1/2 := by
   decide +kernel
 example : critList exHist (centres exEdges) ≠ [] := by decide +kernel
 -- two distinct values, two-valued data, NaNs interleaved
 example : minL [1, 3, 1, 3, 3] < maxL [1, 3, 1, 3, 3] := by decide +kernel
 example : otsuData [1, 3, 1, 3, 3] 4 = 5/4 := by decide +kernel
+example : histogram [1, 2, 1, 4, 5, 5] 4 = ([2, 1, 0, 3], [1, 2, 3, 4, 5]) ∧ otsuData [1, 2, 1, 4, 5, 5] 4 = 5/2 := by
+  decide +kernel
 example : otsuRemoveNan [some 1, none, some 3, some 1, none, some 3, some 3] 4 = 5/4 := by decide +kernel
 example : otsuData ([1, 3, 1, 3, 3].map ((8 : Rat) * ·)) 4 = 8 * (5/4) := by decide +kernel
 
